@@ -16,6 +16,9 @@ pub enum Tier {
 pub struct Raw {
     pub knobs: Vec<u16>,
     pub threads: Vec<Vec<RawOp>>,
+    /// selects the generator: the property's own one or one borrowed from another property
+    #[serde(default)]
+    pub alt: u16,
 }
 #[derive(Clone, Copy, Debug, Serialize, Deserialize, PartialEq, Eq, Hash)]
 pub struct RawOp {
@@ -32,8 +35,9 @@ pub fn raw_strategy(max_threads: usize, max_ops: usize) -> BoxedStrategy<Raw> {
     (
         proptest::collection::vec(any::<u16>(), KNOBS),
         proptest::collection::vec(proptest::collection::vec(op, 0..=max_ops), 1..=max_threads),
+        any::<u16>(),
     )
-        .prop_map(|(knobs, threads)| Raw { knobs, threads })
+        .prop_map(|(knobs, threads, alt)| Raw { knobs, threads, alt })
         .boxed()
 }
 
@@ -92,6 +96,9 @@ pub struct Profile {
     /// extra non-scenario checks (direct unit-level enumeration), R only
     pub extra: Option<fn(Tier) -> ExtraResult>,
     pub assumptions: &'static [&'static str],
+    /// other properties whose *generators* are borrowed for a quarter of the random cases (this
+    /// property's oracle must be valid for any scenario they produce)
+    pub borrow: &'static [&'static str],
 }
 
 /// A deterministic list of cases, produced lazily by index.
